@@ -50,6 +50,13 @@ CHECKS = {
         "Trusted: key computation in the harness; scheduler stand-ins; change visibility bracketed by [record time, return time] so stale-read classifications never rest on a tie. Two listed known findings are excluded by construction and re-confirmed by directed probes.",
         "DESIGN.md 3 C06, A.5",
     ),
+    "C03": (
+        "fault_enumeration",
+        "complete fault enumeration: a hard crash before and after every backend effect of 14 actor-role operations (real code paths, incl. the PersistentProcessRunner and MultiThreadRunner worker entry points run in-process) on Mem and SQLite, each followed by the real recovery tasks and a drain by a surviving runner; invariant oracle over the resulting history",
+        "For every role (client single/batch routing, plain / blocking-priority / concurrency-deferred claim, worker success / failure / retry / not-authorised reroute, kill-and-reroute, pending and running recovery tasks, PPR and MTR worker loops) the effects of the operation are counted in a fault-free run and a crash is injected before and after each one (complete for these scenarios; thorough adds larger batch / claim / recovery sizes); after both recovery limits pass, a survivor runs recover_pending/recover_running and drains; every accepted invocation must be final with its body completed at least once, and its state at the crash instant is classified (queued+available / owned / neither). The windows in which the unchanged code strands an invocation are listed as known findings by role and crash-instant state; anything else is a violation.",
+        "Trusted: effect boundaries = the wrapped backend methods (queue push/pop, status write, registration, result/exception write, argument index, retry counter, wait graph, invocation upsert); a crash is a BaseException at such a boundary plus refusal of all later effects of the dead actor (SQLite transactions roll back); survivors run sequentially; worker entry points run in-process with inline task threads.",
+        "DESIGN.md 3 C03, 2.2",
+    ),
     "C04": (
         "exploration",
         "Hypothesis stateful machine (Mem + SQLite in lock-step, stepped virtual clock on an exact 1/64 s grid) vs a reference model of the recovery scans; lost races injected at a chosen point of the real core-task bodies",
